@@ -1,6 +1,9 @@
 //! Logic related to the Watcher, the components in charge of watching for breaches on chain.
 
+#[cfg(not(kani))]
 use std::collections::HashMap;
+#[cfg(kani)]
+use crate::verif_collections::HashMap;
 use std::sync::atomic::{AtomicU32, Ordering};
 use std::sync::{Arc, Mutex};
 
@@ -1391,3 +1394,7 @@ mod tests {
             .contains(&last_block_header.block_hash()));
     }
 }
+
+#[cfg(kani)]
+#[path = "/verif/harness/teos/watcher.rs"]
+mod verif_harness;
